@@ -50,46 +50,55 @@ pub fn path_spelling(p: &[Seg], dotted: bool) -> String {
 
 /// Parse the part of a Custom path after "$."; None when the text names no claim.
 pub fn parse_custom_path(rest: &str) -> Option<Path> {
+    // `$`, then steps: `.name` (the name may be EMPTY and runs to the next `.` or `[`) or `[i]`.
+    // `rest` is the text after "$.", i.e. it starts with the first name. The spelling `a.[0]`
+    // (a dot directly followed by an index) addresses a[0] as C01 states.
     let cs: Vec<char> = rest.chars().collect();
     let mut i = 0;
     let mut segs = Vec::new();
-    if cs.is_empty() {
-        return None;
-    }
-    while i < cs.len() {
-        if cs[i] == '[' {
-            let mut j = i + 1;
-            let mut digits = String::new();
-            while j < cs.len() && cs[j].is_ascii_digit() {
-                digits.push(cs[j]);
-                j += 1;
+    let mut expect_name = true;
+    loop {
+        if expect_name {
+            expect_name = false;
+            if i < cs.len() && cs[i] == '[' {
+                // `.[n]`: no name, the index follows
+            } else {
+                let mut name = String::new();
+                while i < cs.len() && cs[i] != '.' && cs[i] != '[' {
+                    name.push(cs[i]);
+                    i += 1;
+                }
+                segs.push(Seg::Key(name));
             }
-            if digits.is_empty() || j >= cs.len() || cs[j] != ']' {
-                return None;
-            }
-            if digits.len() > 1 && digits.starts_with('0') {
-                return None;
-            }
-            segs.push(Seg::Idx(digits.parse().ok()?));
-            i = j + 1;
-        } else {
-            let mut name = String::new();
-            while i < cs.len() && cs[i] != '.' && cs[i] != '[' {
-                name.push(cs[i]);
-                i += 1;
-            }
-            if name.is_empty() {
-                return None;
-            }
-            segs.push(Seg::Key(name));
         }
-        if i < cs.len() && cs[i] == '.' {
-            i += 1;
-            if i >= cs.len() {
-                return None;
+        if i >= cs.len() {
+            break;
+        }
+        match cs[i] {
+            '.' => {
+                i += 1;
+                expect_name = true;
             }
-        } else if i < cs.len() && cs[i] != '[' {
-            return None;
+            '[' => {
+                let mut j = i + 1;
+                let mut digits = String::new();
+                while j < cs.len() && cs[j].is_ascii_digit() {
+                    digits.push(cs[j]);
+                    j += 1;
+                }
+                if digits.is_empty() || j >= cs.len() || cs[j] != ']' {
+                    return None;
+                }
+                if digits.len() > 1 && digits.starts_with('0') {
+                    return None;
+                }
+                segs.push(Seg::Idx(digits.parse().ok()?));
+                i = j + 1;
+                if i < cs.len() && cs[i] != '.' && cs[i] != '[' {
+                    return None;
+                }
+            }
+            _ => return None,
         }
     }
     Some(segs)
